@@ -44,6 +44,8 @@ type IP struct {
 	CTags  []IH `gorm:"many2many:ip_ctags;foreignKey:Code;joinForeignKey:OwnerCode;references:Code;joinReferences:TagCode"`
 	// many2many whose two sides have keys of DIFFERENT lengths: one owner column, two target columns
 	WTags []IW `gorm:"many2many:ip_wtags;foreignKey:K;joinForeignKey:OwnerK;references:A,B;joinReferences:TagA,TagB"`
+	// many2many through a join MODEL of its own (SetupJoinTable: IPLTag)
+	LTags []IG `gorm:"many2many:ip_ltags;foreignKey:K;joinForeignKey:OwnerK;references:K;joinReferences:TagK"`
 }
 
 // IW: a many2many target with a composite (string, string) key below the single-key parent IP
@@ -146,6 +148,8 @@ type CP struct {
 	Team   []CP `gorm:"foreignKey:BA,BB;references:A,B"`
 	// many2many whose two sides have keys of DIFFERENT lengths: two owner columns, one target column
 	WTags []CW `gorm:"many2many:cp_wtags;foreignKey:A,B;joinForeignKey:OwnerA,OwnerB;references:K;joinReferences:TagK"`
+	// many2many through a join MODEL of its own (SetupJoinTable: CPLTag)
+	LTags []CG `gorm:"many2many:cp_ltags;foreignKey:A,B;joinForeignKey:OwnerA,OwnerB;references:A,B;joinReferences:TagA,TagB"`
 }
 
 // CW: a many2many target with a single uint key below the composite-key parent CP
@@ -395,6 +399,7 @@ type DP struct {
 	Many     []*DM
 	Tags     []DG  `gorm:"many2many:dp_tags"`
 	Friends  []*DP `gorm:"many2many:dp_friends"`
+	LTags    []DG  `gorm:"many2many:dp_ltags"` // join MODEL of its own (SetupJoinTable: DPLTag)
 	Notes    []DN  `gorm:"polymorphic:Owner;polymorphicValue:xp;polymorphicType:Kind;polymorphicId:OID"`
 	Info     DInfo `gorm:"embedded;embeddedPrefix:info_"`
 	Code     string
@@ -445,3 +450,40 @@ type SH struct {
 	Code string `gorm:"uniqueIndex"`
 	Base
 }
+
+// ---------------- many2many through a JOIN MODEL of its own (SetupJoinTable) ----------------
+// The join model carries a surrogate key and data columns whose NAMES also occur in the related model
+// (k / a, b / id, uid, v): a query that selects `*` over `related JOIN join_table` hands the scanner two
+// columns of one name.  Families I (LTags -> IG), C (LTags -> CG) and D (LTags -> DG, conventional keys).
+type IPLTag struct {
+	ID     uint `gorm:"primaryKey"`
+	OwnerK uint
+	TagK   uint
+	K      uint // same column name as the related model's key
+	UID    int64
+	V      int64
+}
+
+func (IPLTag) TableName() string { return "ip_ltags" }
+
+type CPLTag struct {
+	ID     uint `gorm:"primaryKey"`
+	OwnerA string
+	OwnerB string
+	TagA   string
+	TagB   string
+	A      string // same column names as the related model's key parts
+	B      string
+	V      int64
+}
+
+func (CPLTag) TableName() string { return "cp_ltags" }
+
+type DPLTag struct {
+	ID   uint // surrogate key: same column name as the related model's conventional key
+	DPID uint
+	DGID uint
+	V    int64
+}
+
+func (DPLTag) TableName() string { return "dp_ltags" }
